@@ -66,14 +66,14 @@ static std::string zpack(const std::string &in, int wbits) {
     std::string out(deflateBound(&z, in.size()) + 64, '\0'); z.next_in = (Bytef *)in.data(); z.avail_in = (uInt)in.size(); z.next_out = (Bytef *)&out[0]; z.avail_out = (uInt)out.size();
     deflate(&z, Z_FINISH); out.resize(z.total_out); deflateEnd(&z); return out;
 }
-static std::string lzpack(const std::string &in) {
+static std::string lzpack(const std::string &in, uint32_t dict = 4096) {
 #if C18_HAVE_LZMA
-    lzma_options_lzma opt; if (lzma_lzma_preset(&opt, 1)) return ""; opt.dict_size = 4096;
+    lzma_options_lzma opt; if (lzma_lzma_preset(&opt, 1)) return ""; opt.dict_size = dict;
     lzma_stream s = LZMA_STREAM_INIT; if (lzma_alone_encoder(&s, &opt) != LZMA_OK) return "";
     std::string out(in.size() + in.size() / 3 + 4096, '\0'); s.next_in = (const uint8_t *)in.data(); s.avail_in = in.size(); s.next_out = (uint8_t *)&out[0]; s.avail_out = out.size();
     lzma_ret rc = lzma_code(&s, LZMA_FINISH); out.resize(rc == LZMA_STREAM_END ? s.total_out : 0); lzma_end(&s); return out;
 #else
-    (void)in; return "";
+    (void)in; (void)dict; return "";
 #endif
 }
 static void chunk_ops(vdrv::Scenario &s, const std::string &rq, const std::string &rs) {
@@ -100,12 +100,15 @@ static Input gen_input() {
         chunk_ops(s, rq, "HTTP/1.1 100 Continue\r\n\r\nHTTP/1.1 200 OK\r\nTransfer-Encoding: chunked\r\n\r\n3\r\nabc\r\n0\r\n\r\n"); in.label = "urlencoded_auth_trailers";
     } else if (k == 4 || k == 5) { // content-coded bodies
         std::string plain; int n = rcx::range(1, 40); for (int i = 0; i < n; i++) plain += std::string((size_t)rcx::range(1, 300), (char)('a' + rcx::range(0, 3)));
-        int c = rcx::range(0, C18_HAVE_LZMA ? 4 : 3); std::string tok, body;
-        if (c == 0) { tok = "gzip"; body = zpack(plain, 31); } else if (c == 1) { tok = "deflate"; body = zpack(plain, -15); } else if (c == 2) { tok = "deflate"; body = zpack(plain, 15); } else if (c == 3) { tok = "gzip, deflate"; body = zpack(zpack(plain, -15), 31); } else { tok = "lzma"; body = lzpack(plain); }
+        int c = rcx::range(0, C18_HAVE_LZMA ? 4 : 3); std::string tok, body; bool lzma_big = false;
+        if (c == 0) { tok = "gzip"; body = zpack(plain, 31); } else if (c == 1) { tok = "deflate"; body = zpack(plain, -15); } else if (c == 2) { tok = "deflate"; body = zpack(plain, 15); } else if (c == 3) { tok = "gzip, deflate"; body = zpack(zpack(plain, -15), 31); } else { tok = "lzma"; uint32_t dict = 4096;
+            if (rcx::coin()) { // output beyond the decoder's initial 4 KiB dictionary buffer, announced dictionary larger than that: the buffer is grown (reallocated) while decoding, between and inside calls
+                static const uint32_t DS[] = {1u << 14, 1u << 16, 1u << 20}; dict = DS[rcx::range(0, 2)]; int m = rcx::range(5000, 40000); uint64_t x = (uint64_t)rcx::range(1, 1 << 30); plain.clear(); for (int i = 0; i < m; i++) { x = vc::mix(x + (uint64_t)i); plain += (char)(x & 0xff); } }
+            body = lzpack(plain, dict); if (dict != 4096) lzma_big = true; }
         bool reqside = s.cfg.req_decomp && c != 3 && rcx::chance(1, 3);
         std::string rq = reqside ? "POST /z HTTP/1.1\r\nHost: h.example\r\nContent-Encoding: " + tok + "\r\nContent-Length: " + std::to_string(body.size()) + "\r\n\r\n" + body : std::string("GET /z HTTP/1.1\r\nHost: h.example\r\nAccept-Encoding: gzip\r\n\r\n");
         std::string rs = reqside ? std::string("HTTP/1.1 204 No Content\r\n\r\n") : "HTTP/1.1 200 OK\r\nContent-Encoding: " + tok + "\r\nContent-Length: " + std::to_string(body.size()) + "\r\n\r\n" + body;
-        chunk_ops(s, rq, rs); in.label = "coded_body_" + tok + (reqside ? "_request" : "_response");
+        chunk_ops(s, rq, rs); in.label = "coded_body_" + tok + (lzma_big ? "_dictionary_grows" : "") + (reqside ? "_request" : "_response");
     } else if (k == 6) { // CONNECT (refused / tunnel) and HTTP/0.9, absolute URI with userinfo
         bool ok = rcx::coin(); std::string rq = "CONNECT tunnel.example:443 HTTP/1.1\r\nHost: tunnel.example:443\r\n\r\n" + std::string(ok ? "\x16\x03\x01\x00\x05hello\n" : "GET http://user:pw@h.example:81/a/../b?q#f HTTP/1.1\r\nHost: h.example:81\r\n\r\n");
         std::string rs = ok ? std::string("HTTP/1.1 200 Connection established\r\n\r\n") : std::string("HTTP/1.1 407 Proxy Authentication Required\r\nContent-Length: 0\r\n\r\nHTTP/1.1 200 OK\r\nContent-Length: 1\r\n\r\nx");
